@@ -396,22 +396,47 @@ def code_rhs_key(code):
 
 
 def align_statements(stmts, others):
-    """For every snapshot statement the index of its counterpart in ``others`` = [(bound name | None, rhs key)] or None.
-    A bound statement corresponds to the statement binding the same name (names are unique in a test case) or, if that name
-    is bound nowhere, to the next not yet used *unbound* statement with the same right-hand side (the binding was removed)."""
-    by_name = {b: j for j, (b, _) in enumerate(others) if b is not None}
-    used, out, pos = set(), [], 0
-    for s in stmts:
-        key = code_rhs_key(s["code"])
-        j = by_name.get(s["bound"]) if s["bound"] else None
-        if j is None:
-            j = next((i for i in range(pos, len(others)) if i not in used and others[i][0] is None and others[i][1] == key), None)
-        elif others[j][1] != key:
-            j = None
-        if j is not None:
-            used.add(j)
-            pos = max(pos, j + 1)
-        out.append(j)
+    """For every snapshot statement the index of its counterpart in ``others`` = [(bound name | None, rhs key[, set of assertion
+    texts])] or None.  Order-preserving alignment of maximal weight (weighted LCS): a statement corresponds to the statement binding
+    the same name with the same right-hand side (names are unique in a test case) or to an *unbound* statement with the same
+    right-hand side (the binding was removed); among several identical candidates (``m.clear()`` five times) the alignment that
+    keeps the order, matches most statements and - when assertion texts are given - shares most assertions wins."""
+    n, m = len(stmts), len(others)
+    keys = [code_rhs_key(s["code"]) for s in stmts]
+    texts = [{unparse_code(a["code"]) for a in (s.get("asserts") or []) if a.get("code")} - {None} for s in stmts]
+
+    def weight(a, b):
+        ob, ok = others[b][0], others[b][1]
+        if ok != keys[a]:
+            return 0
+        sb = stmts[a]["bound"]
+        if ob is not None:
+            w = 1000 if sb == ob else 0
+        else:
+            w = 10
+        if w and len(others[b]) > 2 and others[b][2] is not None:
+            w += len(texts[a] & set(others[b][2]))
+        return w
+
+    # best[a][b] = maximal weight aligning stmts[a:] with others[b:]
+    best = [[0] * (m + 1) for _ in range(n + 1)]
+    for a in range(n - 1, -1, -1):
+        for b in range(m - 1, -1, -1):
+            v = max(best[a + 1][b], best[a][b + 1])
+            w = weight(a, b)
+            if w:
+                v = max(v, w + best[a + 1][b + 1])
+            best[a][b] = v
+    out, a, b = [None] * n, 0, 0
+    while a < n and b < m:
+        w = weight(a, b)
+        if w and best[a][b] == w + best[a + 1][b + 1]:
+            out[a] = b
+            a, b = a + 1, b + 1
+        elif best[a][b] == best[a + 1][b]:
+            a += 1
+        else:
+            b += 1
     return out
 
 
